@@ -1013,23 +1013,35 @@ var craftedCursors = func() []string {
 		enc(0xdc, 0, 2, 0xcc, 200, 0xd9, 1, 'a'), // array16, uint8, str8
 		enc(cat([]byte{0xde, 0, 2}, nano, []byte{0xcd, 1, 0x2c}, id, []byte{0xda, 0, 1, 'a'})...), // map16, uint16 300, str16
 		enc(cat([]byte{0xdf, 0, 0, 0, 2}, nano, []byte{0xce, 0, 0, 0, 100}, id, []byte{0xdb, 0, 0, 0, 1, 'c'})...),
-		enc(cat([]byte{0x83}, nano, []byte{1}, nano, []byte{0x64}, id, []byte{0xa1, 'b'})...),                                      // duplicate key: the later one counts
-		enc(cat([]byte{0x81, 0xc4, 4, 'N', 'a', 'n', 'o', 0x64})...),                                                               // key as bin8, Id missing
-		enc(cat([]byte{0x81}, id, []byte{0xa1, 'z'})...),                                                                           // Nano missing
-		enc(cat([]byte{0x82}, id, []byte{0xc0}, nano, []byte{0xc0})...),                                                            // both nil
-		enc(cat([]byte{0x81}, nano, []byte{0xcf, 255, 255, 255, 255, 255, 255, 255, 255})...),                                      // uint64 max = int64 -1
-		enc(cat([]byte{0x81}, nano, []byte{0xd1, 0xff, 0x9c})...),                                                                  // int16 -100
-		enc(cat([]byte{0x81}, nano, []byte{0xd2, 0x80, 0, 0, 0})...),                                                               // int32 min
-		enc(cat([]byte{0x81}, nano, []byte{0xe0})...),                                                                              // negative fixnum -32
-		enc(cat([]byte{0x82, 0xa1, 'x', 1}, nano, []byte{0x64})...),                                                                // unknown key (skipped)
-		enc(cat(valid, []byte{0xff, 0xff})...),                                                                                     // trailing bytes
-		enc(valid[:9]...),                                                                                                          // truncated integer
-		enc(cat([]byte{0x82}, nano, []byte{0xa1, 'x'})...),                                                                         // a string where the integer belongs
-		enc(cat([]byte{0x81}, id, []byte{0x05})...),                                                                                // an integer where the string belongs
-		enc(0xdf, 255, 255, 255, 255),                                                                                              // map32 of 4 billion entries, no bytes
-		enc(0xde, 0),                                                                                                               // truncated map16 length
-		vs[:10] + "\n" + vs[10:],                                                                                                   // a line break inside the base64 text
-		vs + "=",                                                                                                                   // padding is not accepted
+		enc(cat([]byte{0x83}, nano, []byte{1}, nano, []byte{0x64}, id, []byte{0xa1, 'b'})...), // duplicate key: the later one counts
+		enc(cat([]byte{0x81, 0xc4, 4, 'N', 'a', 'n', 'o', 0x64})...),                          // key as bin8, Id missing
+		enc(cat([]byte{0x81}, id, []byte{0xa1, 'z'})...),                                      // Nano missing
+		enc(cat([]byte{0x82}, id, []byte{0xc0}, nano, []byte{0xc0})...),                       // both nil
+		enc(cat([]byte{0x81}, nano, []byte{0xcf, 255, 255, 255, 255, 255, 255, 255, 255})...), // uint64 max = int64 -1
+		enc(cat([]byte{0x81}, nano, []byte{0xd1, 0xff, 0x9c})...),                             // int16 -100
+		enc(cat([]byte{0x81}, nano, []byte{0xd2, 0x80, 0, 0, 0})...),                          // int32 min
+		enc(cat([]byte{0x81}, nano, []byte{0xe0})...),                                         // negative fixnum -32
+		enc(cat([]byte{0x82, 0xa1, 'x', 1}, nano, []byte{0x64})...),                           // unknown key (skipped)
+		enc(cat(valid, []byte{0xff, 0xff})...),                                                // trailing bytes
+		enc(valid[:9]...),                                                                     // truncated integer
+		enc(cat([]byte{0x82}, nano, []byte{0xa1, 'x'})...),                                    // a string where the integer belongs
+		enc(cat([]byte{0x81}, id, []byte{0x05})...),                                           // an integer where the string belongs
+		enc(0xdf, 255, 255, 255, 255),                                                         // map32 of 4 billion entries, no bytes
+		enc(0xde, 0),                                                                          // truncated map16 length
+		vs[:10] + "\n" + vs[10:],                                                              // a line break inside the base64 text
+		vs + "=",                                                                              // padding is not accepted
+		// values of unknown keys and surplus array elements are skipped (d.Skip): nested containers, bin, ext, floats
+		enc(cat([]byte{0x82, 0xa1, 'x', 0x81, 0xa1, 'y', 0x92, 1, 0x90}, nano, []byte{0x64})...),
+		enc(cat([]byte{0x82, 0xa1, 'x', 0xc7, 2, 5, 0xaa, 0xbb}, nano, []byte{0x64})...),
+		enc(cat([]byte{0x82, 0xa1, 'x', 0xcb, 1, 2, 3, 4, 5, 6, 7, 8}, nano, []byte{0x64})...),
+		enc(cat([]byte{0x83, 0xa1, 'x', 0xc5, 0, 2, 0xaa, 0xbb, 0xa1, 'y', 0xd6, 1, 0xaa, 0xbb, 0xcc, 0xdd}, nano, []byte{0x64})...),
+		enc(cat([]byte{0x82, 0xa1, 'x', 0xde, 0, 1, 0xa1, 'k', 0xca, 0, 0, 0, 0}, id, []byte{0xa1, 'q'})...),
+		enc(cat([]byte{0x82, 0xa1, 'x', 0xc1}, nano, []byte{0x64})...),             // 0xc1 is no msgpack code
+		enc(cat([]byte{0x82, 0xa1, 'x', 0x92, 1})...),                              // the skipped value is truncated
+		enc(cat([]byte{0x82, 0xa1, 'x', 0xc7, 9, 5, 0xaa}, nano, []byte{0x64})...), // ext8 longer than the document
+		enc(0x94, 0x64, 0xa1, 'b', 0x81, 0xa1, 'k', 0xc0, 0x90),                    // four elements, two skipped
+		enc(0x93, 0x64, 0xa1, 'b'),                   // the third element is missing
+		enc(0xdd, 0, 0, 0, 3, 0x64, 0xa1, 'b', 0xc3), // array32
 		"wB", "gP", dirtyTail(vs), dirtyTail(enc(cat([]byte{0x81}, nano, []byte{0x64})...)), dirtyTail(enc(0x92, 0x64, 0xa1, 'b')), // unused trailing bits set (accepted: the decoder is not strict)
 		vs[:len(vs)-1], // last character missing
 	}
